@@ -179,6 +179,29 @@ func runPanic(c *Ctx) {
 							c.tablePanic(name, "struct walker error", pos, reach[f])
 							return
 						}
+						// a private step that only forwards the struct walker's error (or nil)
+						if p.PrivateHelper(cal) {
+							onlyWalker := true
+							nsrc := 0
+							for _, sv := range p.ISources(ev) {
+								if core.IsNilConst(sv) {
+									continue
+								}
+								nsrc++
+								e2, isE := sv.(*ssa.Extract)
+								if !isE {
+									onlyWalker = false
+									continue
+								}
+								if c2, ok := e2.Tuple.(*ssa.Call); !ok || c2.Common().StaticCallee() != p.MustRole("structWalker") {
+									onlyWalker = false
+								}
+							}
+							if onlyWalker && nsrc > 0 {
+								c.tablePanic(name, "struct walker error", pos, reach[f])
+								return
+							}
+						}
 					}
 				}
 			}
@@ -802,7 +825,7 @@ func (c *Ctx) panicRole(name string) string {
 				return r
 			}
 		}
-		if rd := p.MustRole("Redefine"); rd != nil && (g.Parent() == rd || (g.Parent() != nil && g == p.GeneratedBody())) {
+		if rd := p.MustRole("Redefine"); rd != nil && (g.Parent() == rd || g == p.GeneratedBody()) {
 			return "Redefine-closure"
 		}
 		return ""
